@@ -1,0 +1,48 @@
+//go:build verif
+
+// Contracts for package flight12: peer authentication gates (C03).
+package flight12
+
+//@ assume-pure CipherSuite.IsInitialized
+//@ define certSuite(state) (old(state.CipherSuite.AuthenticationType()) == ciphersuite.AuthenticationTypeCertificate)
+
+// Client side of the full handshake: keys are installed (CipherSuite.Init) only after, for certificate
+// suites, the ServerKeyExchange signature verified under the leaf key over this handshake's randoms and
+// ECDH parameters, the chain verified against the configured roots and server name (unless explicitly
+// disabled), and the application's own verifier (if configured) accepted.
+//@ func initializeCipherSuite
+//@ watch VerifyKeySignature! VerifyServerCert! ValueKeyMessage! CipherSuite.Init! HandshakeConfig.VerifyPeerCertificate! HandshakeConfig.VerifyConnection!
+//@ requires args: state != nil && cache != nil && cfg != nil && state.Common != nil && state.CipherSuite != nil && handshakeKeyExchange != nil
+//@ ensures key-signature-verified: result1 == nil && !old(state.CipherSuite.IsInitialized()) && certSuite(state) ==> called("VerifyKeySignature!") && retErr("VerifyKeySignature!", 0) == nil
+//@ ensures signature-over-this-handshake: called("VerifyKeySignature!") ==> sameSlice(argBytes("VerifyKeySignature!", 0), retBytes("ValueKeyMessage!", 0)) && sameSlice(argBytes("VerifyKeySignature!", 1), old(handshakeKeyExchange.Signature))
+//@ ensures key-message-binds-parameters: called("ValueKeyMessage!") ==> sameSlice(argBytes("ValueKeyMessage!", 2), old(handshakeKeyExchange.PublicKey)) && argAs("ValueKeyMessage!", 3, old(handshakeKeyExchange.NamedCurve)) == old(handshakeKeyExchange.NamedCurve)
+//@ ensures signature-by-presented-chain: called("VerifyKeySignature!") ==> sameSlice(argAs("VerifyKeySignature!", 4, state.PeerCertificates), old(state.PeerCertificates))
+//@ ensures chain-verified: result1 == nil && !old(state.CipherSuite.IsInitialized()) && certSuite(state) && !old(cfg.InsecureSkipVerify) ==> called("VerifyServerCert!") && retErr("VerifyServerCert!", 1) == nil
+//@ ensures chain-args: called("VerifyServerCert!") ==> sameSlice(argAs("VerifyServerCert!", 0, state.PeerCertificates), old(state.PeerCertificates)) && argAs("VerifyServerCert!", 1, old(cfg.RootCAs)) == old(cfg.RootCAs) && argAs("VerifyServerCert!", 2, old(cfg.ServerName)) == old(cfg.ServerName)
+//@ ensures app-verifier-accepted: result1 == nil && called("HandshakeConfig.VerifyPeerCertificate!") ==> retErr("HandshakeConfig.VerifyPeerCertificate!", 0) == nil
+//@ ensures app-verifier-consulted: result1 == nil && !old(state.CipherSuite.IsInitialized()) && certSuite(state) && old(cfg.VerifyPeerCertificate) != nil ==> called("HandshakeConfig.VerifyPeerCertificate!")
+//@ ensures no-keys-before-verification: called("CipherSuite.Init!") && certSuite(state) ==> calledBefore("VerifyKeySignature!", "CipherSuite.Init!") && retErr("VerifyKeySignature!", 0) == nil
+//@ ensures no-keys-before-chain: called("CipherSuite.Init!") && certSuite(state) && !old(cfg.InsecureSkipVerify) ==> calledBefore("VerifyServerCert!", "CipherSuite.Init!") && retErr("VerifyServerCert!", 1) == nil
+//@ ensures failure-has-alert: result1 != nil ==> result0 != nil && result0.Level == alert.Fatal
+//@ end
+
+//@ func handleServerKeyExchange
+//@ requires args: state != nil && cfg != nil && keyExchangeMessage != nil && state.Common != nil
+//@ ensures alert-is-fatal: result0 != nil ==> result0.Level == alert.Fatal && result1 != nil
+//@ ensures success-has-no-alert: result1 == nil ==> result0 == nil
+//@ ensures chain-untouched: sameSlice(state.PeerCertificates, old(state.PeerCertificates)) && sameRef(state.CipherSuite, old(state.CipherSuite))
+//@ end
+
+// Client, after ServerHello..ServerHelloDone: with a certificate cipher suite the handshake only moves
+// on to flight 5 if the server presented a certificate chain (RFC 5246 7.4.2); a resumed session is
+// accepted only through handleResumption (C14); a client that requires extended master secret never
+// moves on without it (C11).
+//@ func flight3Parse
+//@ watch handleResumption! ciphersuite.ForID!
+//@ requires args: state != nil && cache != nil && cfg != nil && state.Common != nil && conn != nil && cfg.Log != nil
+//@ requires suites: forall(0, len(cfg.LocalCipherSuites), func(i int) bool { return cfg.LocalCipherSuites[i] != nil })
+//@ ensures server-cert-mandatory: next == Flight5 && state.CipherSuite != nil && state.CipherSuite.AuthenticationType() == ciphersuite.AuthenticationTypeCertificate ==> typeIs(serverFlightPull.Messages[handshake.TypeCertificate], "*github.com/pion/dtls/v3/pkg/protocol/handshake.MessageCertificate")
+//@ ensures resumption-only-via-finished-check: next == Flight5b ==> called("handleResumption!") && retAs("handleResumption!", 0, Flight5b) == Flight5b && retErr("handleResumption!", 2) == nil
+//@ ensures ems-required: next == Flight5 && old(cfg.ExtendedMasterSecret) == dtlsconfig.RequireExtendedMasterSecret && called("ciphersuite.ForID!") ==> state.ExtendedMasterSecret
+//@ ensures failure-is-fatal: dtlsAlert != nil ==> dtlsAlert.Level == alert.Fatal && next == 0
+//@ end
